@@ -38,7 +38,7 @@ CLAIMED = {
  "C14": dict(cat="proof", tech="Coq proofs for add_transition and for resolve() over all API programs + correspondence + per-graph certified well-formedness",
    text="C14_build (every API program yields tables linked on both ends), C14_resolve / C14_resolve_general (after a successful resolve no Reference is reachable from the "
         "returned root, child links stay recorded, records of non-reference nodes are truthful; any sub-graphs, chains, sharing, recursion), C14_unknown_name / "
-        "C14_duplicate_id (documented exception); C14_resolve_then_optimize, C14_grammar_output, C14_regex_output and C14_xsd_output: for every grammar / every regex of the dialect / every XSD element tree the graph the front end returns is linked on both ends at every "
+        "C14_duplicate_id (documented exception); C14_resolve_then_optimize, C14_grammar_output, C14_regex_output, C14_xsd_output and C14_json_output (C14_json_nf_output): for every grammar / every regex of the dialect / every XSD element tree / every JSON schema (every normal form) the graph the front end returns is linked on both ends at every "
         "reachable node (and, for grammars and XSDs, contains no reachable Reference): builder invariant, resolve_spec, live-set invariant of optimize and of the wrapper nodes. Other parser outputs: the node table of every graph returned by the five front ends is checked by the model's wfb "
         "(proved sufficient) and by check_consistency / id uniqueness on the implementation.",
    note=TB + "Modelled: coq/Graph.v, coq/GraphOps.v. Front-end graphs are checked by their own streams as they are added.", ref="5/C14"),
